@@ -90,6 +90,13 @@ CHECKS = {
                      'in Established every successful send (message pool, eBGP and iBGP, route-refresh x capability sets, bin_update) must '
                      'put exactly one message on the tracked transport whose reference decoding equals the request (+LOCAL_PREF 100 iff iBGP).',
                 ref='7 C16', note=E1_NOTE),
+    'C19': dict(level='model_checking', engine='E1',
+                technique='explicit-state exploration of operation sequences on the real session objects against a dictionary reference model',
+                text='All sequences of received / REST-sent announce, withdraw, re-announce (same and different attributes) and session-drop '
+                     'operations over a small prefix / flowspec / VPNv4 pool up to the stated depth, de-duplicated on (model state, last '
+                     'operation), executed on the real BGP object with rib=True; after every operation Adj-RIB-In/Out and the per-family '
+                     'received/sent version increments read back through the REST endpoints must equal the dictionary model\'s.',
+                ref='7 C19', note=E1_NOTE),
 }
 
 NOT_YET = 'check not built yet in this session (see DESIGN.md section 7 for the plan); not claimed'
